@@ -215,11 +215,16 @@ class Pool:
                     job = w.job
                     w.job = None
                     pending -= 1
+                    retire = status == "ok" and isinstance(res, dict) and res.pop("_retire", False)
+                    if retire:
+                        # the job declared its process used up (dirty / must be fresh): replace it before reuse
+                        self._restart(w)
                     if status == "ok":
                         yield jid, job[1], res
                     else:
                         yield jid, job[1], {"_worker": "exception", **res}
-                    feed(w)
+                    if not retire:
+                        feed(w)
                 elif w.job is not None and now - w.t0 > w.limit:
                     job = w.job
                     self._restart(w)
